@@ -495,6 +495,10 @@ fn malformed_family() -> Vec<Bad> {
     add("err-duplicated-option", true, toks(&["-f", "good.af", "-p", "SE-CO", "-p", "SE-GR"]), g, true);
     add("err-duplicated-option", false, toks(&["solve", "-f", "good.af", "-f", "good.af", "-p", "SE-CO", "--logging-level", "off"]), g, true);
     add("err-duplicated-option", false, toks(&["solve", "-f", "good.af", "-p", "DC-CO", "-a", "1", "-a", "2", "--logging-level", "off"]), g, true);
+    add("err-duplicated-option", false, toks(&["solve", "-f", "good.af", "-p", "DC-CO", "-a", "1", "-c", "-c", "--logging-level", "off"]), g, true);
+    add("err-duplicated-option", false, toks(&["solve", "-f", "good.af", "-p", "DC-CO", "-a", "1", "-c", "--with-certificate", "--logging-level", "off"]), g, true);
+    add("err-duplicated-option", false, toks(&["solve", "-f", "good.af", "-p", "SE-CO", "--logging-level", "off", "--logging-level", "off"]), g, true);
+    add("err-duplicated-option", false, toks(&["solve", "-f", "good.af", "-p", "SE-CO", "--logging-level", "off", "-r", "iccma23", "--reader", "iccma23"]), g, true);
     add("err-empty-value", false, toks(&["solve", "-f", "", "-p", "SE-CO", "--logging-level", "off"]), None, true);
     add("err-empty-value", true, toks(&["-f", "", "-p", "SE-CO"]), None, true);
     add("err-empty-value", false, toks(&["solve", "-f", "good.af", "-p", "DC-CO", "-a", "", "--logging-level", "off"]), g, true);
